@@ -38,7 +38,7 @@ var paths = []string{"/", "/api/Search", "/api/search/", "/api/report", "/api/re
 var hkeys = []string{"Referer", "X-Device-Id", "User-Agent", "Accept", "X-Bfe-Debug", "Header-Test"}
 var qkeys = []string{"uid", "word", "wd", "rid1", "ridX", "Cid", ""}
 var ckeys = []string{"uid", "deviceid", "UID", "ss"}
-var values = []string{"", "x", "Firefox/2.0.4", "https://example.org/login", "100", "TestId", "testid", "a|b", "1", "Chrome 99", "ÿ"}
+var values = []string{"", "x", "Firefox/2.0.4", "https://example.org/login", "100", "TestId", "testid", "a|b", "1", "Chrome 99", "~Z"}
 var ips = [][]byte{{10, 0, 0, 5}, {0, 0, 0, 0, 0, 0, 0, 0, 0, 0, 255, 255, 10, 0, 0, 5}, {0x20, 0x01, 0x0d, 0xb8, 0, 0, 0, 0, 0, 0, 0, 0, 0, 0, 0, 5},
 	{192, 168, 1, 200}, {0, 0, 0, 0, 0, 0, 0, 0, 0, 0, 0, 0, 0, 0, 0, 1}, {255, 255, 255, 255}, {1, 2, 3}, {}}
 
